@@ -60,6 +60,7 @@ type vsAttempt struct {
 	advance   time.Duration // clock advance by the client in mid-upload
 	advAfter  int           // after this many files
 	cutClass  string        // cut-eof: where in the multipart stream the body ended
+	cutInFile bool          // ... and whether that was inside the content of a file part
 	committed bool          // the client got as far as calling Commit
 	extended  bool          // overlapped an extended-lane fault (SQL statement failure, crash-restart): restricted oracle
 }
@@ -164,7 +165,7 @@ func (e *vsEnv) setup(personality int) {
 	e.app.ViewURLBase = []string{"", "https://perf.example/search?q=upload:", "https://perf.example/100%/search?q=upload:"}[e.T.Intn(3, "view-url-base")]
 	mux := http.NewServeMux()
 	e.app.RegisterOnMux(mux)
-	e.tr = &simTransport{r: r, s: e.s, handler: mux, cuts: map[string]armedCut{}, lastCutClass: map[string]string{}}
+	e.tr = &simTransport{r: r, s: e.s, handler: mux, cuts: map[string]armedCut{}, lastCutClass: map[string]string{}, lastCutInFile: map[string]bool{}}
 	e.tr.chunkMax = []int{0, 0, 1, 7, 64, 1000}[e.T.Intn(6, "body-chunking")]
 	e.model = &vsModel{}
 	e.idsSeen = map[string]bool{}
@@ -366,6 +367,7 @@ func (e *vsEnv) upload(c *vsClient, a *vsAttempt) {
 	if a.fault.Kind == "cut-eof" || a.fault.Kind == "cut" {
 		e.tr.mu.Lock()
 		a.cutClass = e.tr.lastCutClass[c.name]
+		a.cutInFile = e.tr.lastCutInFile[c.name]
 		delete(e.tr.cuts, c.name)
 		e.tr.mu.Unlock()
 	}
@@ -464,6 +466,19 @@ func (e *vsEnv) settle(attempts []*vsAttempt, faultsOn bool) {
 				if !f.closedOK && f.visible && !a.extended {
 					r.Fail("all-or-nothing", "failed-upload-leaves-file", "%s: upload failed (%d %q, fault %+v) but the file being written, %s, is still stored (%d bytes)", a.client, a.status, clipS(a.body), a.fault, f.name, len(f.buf))
 				}
+			}
+			// the body broke off inside the content of a file: that file was being written when the failure happened,
+			// however complete its last line looked to the server
+			if (a.fault.Kind == "cut" || a.fault.Kind == "cut-eof") && strings.HasSuffix(a.cutClass, "in-part-body") && a.cutInFile && !a.extended && len(created) > 0 {
+				f := created[len(created)-1]
+				vis := f.visible
+				if e.fs.inner != nil {
+					_, vis = onDisk[f.name]
+				}
+				if vis {
+					r.Fail("all-or-nothing", "truncated-file-left-in-store", "%s: the request body ended inside the content of a file (%s after %d bytes) and the upload failed (%d %q), but the file being written, %s, is still stored (%d bytes)", a.client, a.cutClass, a.fault.Pos, a.status, clipS(a.body), f.name, len(f.buf))
+				}
+				r.Hit("file store examined for the file in which the request body broke off")
 			}
 			collides := false
 			unstorable := -1 // first file the server rejects while reading it (over-long line, no benchmark lines)
@@ -572,7 +587,8 @@ func (e *vsEnv) settle(attempts []*vsAttempt, faultsOn bool) {
 				fmt.Fprintf(&hdr, "%s: %s\n", k, server[k])
 			}
 			want := hdr.String() + "\n" + f.text
-			if string(content) != want {
+			// a line end supplied after a last line that came without one is still the file as uploaded
+			if string(content) != want && !(have && !strings.HasSuffix(want, "\n") && string(content) == want+"\n") {
 				sig := "stored-file-differs"
 				if strings.HasPrefix(string(content), hdr.String()) && !strings.HasPrefix(string(content), hdr.String()+"\n") {
 					sig = "stored-file-header-separator-missing"
@@ -887,6 +903,9 @@ func (e *vsEnv) genAttempt(faultsOn bool, force *vsFault) *vsAttempt {
 	if a.fault.Kind == "nobench" {
 		i := a.fault.File % len(a.files)
 		a.files[i].text = vsGenFile(T, vsGenOpts{noBench: true})
+		if T.Intn(4, "nobench-empty-file") == 0 {
+			a.files[i].text = "" // a file of zero bytes is a file without benchmark lines too
+		}
 		e.r.Fault("file-without-benchmark-lines")
 	}
 	if faultsOn && T.Intn(10, "mid-advance") == 0 {
